@@ -1,6 +1,6 @@
 //verif:pkg .
 //verif:use fakes_client
-//verif:bound client side: one call whose request id is an arbitrary integer 1..2^53 (the clients' own counters produce integers), answered by a scripted peer that echoes the id as a JSON number, optionally preceded by an answer carrying a different id; Streamable client with SSE answers, legacy SSE client, stdio client; StdioClient with two calls in flight (a pending tools/call and each of the six operations, after 0..2 earlier calls)
+//verif:bound client side: one call whose request id is an arbitrary integer 1..2^53 (the clients' own counters produce integers), answered by a scripted peer that echoes the id as a JSON number, optionally preceded by an answer carrying a different id; Streamable client with SSE answers, legacy SSE client, stdio client; StdioClient with two calls in flight (a pending tools/call and each of the six operations, after 0..2 earlier calls); stdio transport with a peer that answers inside the Write of the request, under every schedule with <= 2 (thorough 3) preemptions
 //verif:assume fmt's %v of an integral float64 prints plain digits below 10^6 and exponent notation from 10^6 on (shortest 'g' formatting; checked against the real fmt by the native co-execution of every path witness)
 package mcp
 
@@ -133,6 +133,41 @@ func H_C01_stdio_client_id() {
 	go t.readLoop()
 	raw, err := t.sendRequest(context.Background(), &JSONRPCRequest{JSONRPC: "2.0", ID: n, Request: Request{Method: "tools/call"},
 		Params: map[string]interface{}{"name": "t"}})
+	vAssert("call-completes-with-an-answer", vAnd(err == nil, raw != nil))
+	if err == nil && raw != nil {
+		res, perr := parseCallToolResult(raw)
+		vAssert("call-gets-its-own-answer", vAnd(perr == nil, c01TextOf(res) == "yours"))
+	}
+	vReach("end")
+}
+
+// H_C01_stdio_fast_peer: the peer answers while the caller is still inside its write, so the reader may dispatch
+// the answer before the caller waits for it: under every schedule with <= 2 (thorough 3) preemptions the call
+// still gets its answer.
+func H_C01_stdio_fast_peer() {
+	out := newVerifStream()
+	t := newStdioClientTransport(StdioServerParameters{Command: "none"}, withStdioTransportTimeout(400*time.Millisecond))
+	in := &c01Pipe{}
+	in.onLine = func(b []byte) {
+		doc, _ := verifParse(b)
+		obj, _ := verifObj(doc)
+		if id, hasID := obj["id"]; hasID {
+			out.push(append(c01Answer(id, "yours"), '\n'))
+		}
+	}
+	t.process = &exec.Cmd{}
+	t.stdin = in
+	t.stdout = out
+	t.encoder = json.NewEncoder(in)
+	go t.readLoop()
+	budget := 2
+	if vTier() == 1 {
+		budget = 3
+	}
+	vSched(true, budget)
+	raw, err := t.sendRequest(context.Background(), &JSONRPCRequest{JSONRPC: "2.0", ID: int64(7), Request: Request{Method: "tools/call"},
+		Params: map[string]interface{}{"name": "t"}})
+	vSched(false, 0)
 	vAssert("call-completes-with-an-answer", vAnd(err == nil, raw != nil))
 	if err == nil && raw != nil {
 		res, perr := parseCallToolResult(raw)
